@@ -15,6 +15,7 @@ import AspireModel.Model.Dtype
 import AspireModel.Model.Codec
 import AspireModel.Model.CodecSamples
 import AspireModel.ErfFloat
+import AspireModel.Gen.SrcState
 /-
   Pure part of the line-protocol driver: one request line in, one reply line out.
   `Main.lean` only does the IO loop.  First token selects the width (`f64` / `f32`),
@@ -605,6 +606,40 @@ def opSampleCols : P String := do
   | some cs => pure ("some " ++ " ".intercalate (cs.map fun c => toString (c.headD 0)))
   | none => pure "none"
 
+/-- `ckstate <history> <pop> <iteration> <beta> <min_step?> <rng?> <n later> <later histories…> <restorer has rng?> <restorer rng?> dict|bytes`:
+    the TRANSLATED `build_checkpoint_state` on a sampler whose live history is `<history>`, then the run appends (`later`: the live history
+    after each further append), then the TRANSLATED `restore_from_checkpoint` on another sampler object from the live dictionary or from its
+    pickled bytes (taken when the checkpoint was built).  Reply: what the restore hands back and leaves on the sampler. -/
+def opCkState : P String := do
+  let hist ← listOf nat
+  let pop ← nat; let it ← nat; let beta ← nat
+  let ms ← optNat; let rng ← optNat
+  let later ← listOf (listOf nat)
+  let rng2 ← optNat
+  let route ← tok
+  let w : Gen.World (List Nat) Nat Nat Nat := { heap := { cells := [hist] }, self := { history := 0, rng_state := rng } }
+  let ops0 : Gen.StateOps Nat Nat Nat Nat (List Nat) Nat :=
+    { class_name := 1, parameters := 2, config_dict := 3, from_samples := id, smc_from_samples := fun p _ => p,
+      loads := fun _ => {}, load_file := fun _ => {}, new_history := [], zero := 0 }
+  let b := Gen.smc_build_checkpoint_state ops0 w pop it beta ms
+  let pickled := Gen.freeze b.1.heap b.2          -- what `pickle.dumps(state)` saw when the callback ran
+  let ops : Gen.StateOps Nat Nat Nat Nat (List Nat) Nat := { ops0 with loads := fun _ => pickled, load_file := fun _ => pickled }
+  let hp := later.foldl (fun hp h => hp.set b.1.self.history h) b.1.heap
+  let (hp, a2) := hp.alloc []
+  let w2 : Gen.World (List Nat) Nat Nat Nat := { heap := hp, self := { history := a2, rng_state := rng2 } }
+  let src ← (match route with
+    | "dict" => pure (Gen.Source.dict b.2) | "bytes" => pure (Gen.Source.bytes []) | "path" => pure (Gen.Source.path 0)
+    | x => throw s!"bad route {x}")
+  let showO : Option Nat → String := fun o => match o with | some v => s!"some {v}" | none => "none"
+  match Gen.smc_restore_from_checkpoint ops w2 src with
+  | .error e => pure s!"error {repr e}"
+  | .ok (w', p, bt, i) =>
+    let h := w'.heap.get w'.self.history
+    pure (" ".intercalate [toString p, toString bt, toString i, toString h.length] ++ " " ++ " ".intercalate (h.map toString) ++ " | " ++
+          showO w'.self.rng_state ++ " | " ++ showO w'.self.restored_min_step ++ " | " ++
+          -- the dictionary's own history after everything: still what it was at build time?
+          " ".intercalate ((match b.2.history with | some a => w'.heap.get a | none => []).map toString))
+
 def dispatch (op : String) : P String :=
   match op with
   | "weights" => opWeights (α := α)
@@ -635,6 +670,7 @@ def dispatch (op : String) : P String :=
   | "conv" => opConv
   | "codec" => opCodec
   | "samplecols" => opSampleCols
+  | "ckstate" => opCkState
   | _ => throw s!"unknown op {op}"
 
 end Driver
